@@ -50,6 +50,16 @@ WHITELIST = [
     dict(cls="OctahedronToolBox", fn="ModMax"),
     dict(cls="OctahedronToolBox", fn="MakePositive"),
     dict(cls="OctahedronToolBox", fn="CanonicalizeOctahedralCoords"),
+    dict(cls="OctahedronToolBox", fn="IntegerVectorToQuantizedOctahedralCoords"),
+    dict(cls="OctahedronToolBox", fn="CanonicalizeIntegerVector", params=["int *"]),
+    dict(cls="PredictionSchemeNormalOctahedronDecodingTransform", fn="ComputeOriginalValue",
+         params=["draco::VectorD<int, 2>", "const draco::VectorD<int, 2> &"]),
+    dict(cls="PredictionSchemeNormalOctahedronEncodingTransform", fn="ComputeCorrection",
+         params=["draco::VectorD<int, 2>", "draco::VectorD<int, 2>"]),
+    dict(cls=None, fn="DataTypeLength"),
+    dict(cls=None, fn="CountOneBits32"),
+    dict(cls=None, fn="ReverseBits32"),
+    dict(cls=None, fn="CopyBits32"),
     dict(cls="PredictionSchemeNormalOctahedronCanonicalizedTransformBase", fn="GetRotationCount"),
     dict(cls="PredictionSchemeNormalOctahedronCanonicalizedTransformBase", fn="RotatePoint"),
     dict(cls="PredictionSchemeNormalOctahedronCanonicalizedTransformBase", fn="IsInBottomLeft"),
@@ -70,12 +80,15 @@ TU_TEXT = """\
 #include "draco/compression/attributes/prediction_schemes/prediction_scheme_normal_octahedron_canonicalized_transform_base.h"
 #include "draco/compression/attributes/prediction_schemes/prediction_scheme_normal_octahedron_canonicalized_decoding_transform.h"
 #include "draco/compression/attributes/prediction_schemes/prediction_scheme_normal_octahedron_canonicalized_encoding_transform.h"
+#include "draco/compression/attributes/prediction_schemes/prediction_scheme_normal_octahedron_decoding_transform.h"
+#include "draco/compression/attributes/prediction_schemes/prediction_scheme_normal_octahedron_encoding_transform.h"
 #include "draco/compression/attributes/prediction_schemes/prediction_scheme_wrap_transform_base.h"
 #include "draco/compression/attributes/prediction_schemes/prediction_scheme_wrap_decoding_transform.h"
 #include "draco/compression/attributes/prediction_schemes/prediction_scheme_wrap_encoding_transform.h"
 #include "draco/compression/entropy/rans_symbol_coding.h"
 #include "draco/compression/entropy/rans_symbol_encoder.h"
 #include "draco/core/varint_encoding.h"
+#include "draco/core/draco_types.cc"
 static_assert(std::is_same<int8_t, signed char>::value && std::is_same<uint8_t, unsigned char>::value, "");
 static_assert(std::is_same<int16_t, short>::value && std::is_same<uint16_t, unsigned short>::value, "");
 static_assert(std::is_same<int32_t, int>::value && std::is_same<uint32_t, unsigned int>::value, "");
@@ -90,6 +103,9 @@ template class RAnsSymbolEncoder<12>;
 template bool EncodeVarint<uint32_t>(uint32_t, EncoderBuffer *);
 template bool EncodeVarint<uint64_t>(uint64_t, EncoderBuffer *);
 template class PredictionSchemeNormalOctahedronCanonicalizedTransformBase<int32_t>;
+template void OctahedronToolBox::CanonicalizeIntegerVector<int32_t>(int32_t *) const;
+template class PredictionSchemeNormalOctahedronDecodingTransform<int32_t>;
+template class PredictionSchemeNormalOctahedronEncodingTransform<int32_t>;
 template class PredictionSchemeNormalOctahedronTransformBase<int32_t>;
 template class PredictionSchemeNormalOctahedronCanonicalizedDecodingTransform<int32_t>;
 template class PredictionSchemeNormalOctahedronCanonicalizedEncodingTransform<int32_t>;
@@ -168,6 +184,7 @@ class CT:
 
 
 _ALIAS_RESOLVER = None
+_ENUM_RESOLVER = None
 
 
 def parse_type(s, _depth=0):
@@ -209,6 +226,12 @@ def parse_type(s, _depth=0):
                 return CT("stdvec", to=el, const=const)
         except XlateError:
             pass
+    if _ENUM_RESOLVER is not None:
+        u = _ENUM_RESOLVER(s)
+        if u is not None:
+            t = parse_type(u, _depth + 1)
+            t.const = const
+            return t
     if _ALIAS_RESOLVER is not None and "::" in s and _depth == 0:
         r = _ALIAS_RESOLVER(s)
         if r is not None and r != s:
@@ -285,8 +308,26 @@ class Index:
         self.aliases = []
         for o in objs:
             self._walk(o, None)
-        global _ALIAS_RESOLVER
+        global _ALIAS_RESOLVER, _ENUM_RESOLVER
         _ALIAS_RESOLVER = self.resolve_alias
+        self.enums = {}
+        for i, n in self.byid.items():
+            if n.get("kind") == "EnumDecl" and n.get("name") and any(c.get("kind") == "EnumConstantDecl" for c in n.get("inner", [])):
+                ut = n.get("fixedUnderlyingType")
+                # an unscoped enum without fixed underlying type: `unsigned int` when no enumerator is negative (gcc/clang)
+                self.enums.setdefault(n["name"], []).append((ut.get("desugaredQualType") or ut["qualType"]) if ut else "unsigned int")
+        _ENUM_RESOLVER = self.resolve_enum
+
+    def resolve_enum(self, qual):
+        q = qual.strip()
+        if q.startswith("enum "):
+            q = q[5:]
+        if q.startswith("draco::"):
+            q = q[7:]
+        us = self.enums.get(q)
+        if us and len(set(us)) == 1:
+            return us[0]
+        return None
 
     def resolve_alias(self, qual):
         """`Cls<args>::Name` (a member typedef that clang printed without its desugared type) -> desugared type text"""
@@ -354,6 +395,10 @@ class Index:
                         c.get("kind") == "TemplateArgument" for c in n.get("inner", [])):
                     continue            # the dependent pattern, not an instantiation
             else:
+                if par is not None and par.get("kind") == "FunctionTemplateDecl":
+                    if not any(c.get("kind") == "TemplateArgument" for c in n.get("inner", [])):
+                        continue
+                    par = self.parent.get(par.get("id"))
                 if par is None or par.get("name") != cls:
                     continue
                 if par.get("kind") == "CXXRecordDecl":
@@ -1308,11 +1353,18 @@ class FuncTranslator:
         for c in body.get("inner", []):
             ck = c.get("kind")
             if ck == "CaseStmt":
+                vals = []
                 ci = c["inner"]
-                if len(ci) != 2 or ci[1].get("kind") in ("CaseStmt", "DefaultStmt"):
-                    self.fail("stacked or ranged case labels", c)
-                cv, ct = self.ev(ci[0], ctx)
-                cur = [cv, [ci[1]]]
+                while True:
+                    if len(ci) != 2 or ci[1].get("kind") == "DefaultStmt":
+                        self.fail("ranged case label or case stacked on default", c)
+                    cv, ct = self.ev(ci[0], ctx)
+                    vals.append(cv)
+                    if ci[1].get("kind") == "CaseStmt":
+                        ci = ci[1]["inner"]
+                        continue
+                    break
+                cur = [vals, [ci[1]]]
                 cases.append(cur)
             elif ck == "DefaultStmt":
                 cur = [None, [c["inner"][0]]]
@@ -1337,7 +1389,7 @@ class FuncTranslator:
                 lines += [ind + l for l in bl]
                 return lines
             bl = self.stmts(body_ss, ctx.copy(), k)
-            lines.append(ind + f"if {v} = {cv} then")
+            lines.append(ind + "if " + " ∨ ".join(f"{v} = {x}" for x in cv) + " then")
             lines += [ind + "  " + l for l in bl]
             lines.append(ind + "else")
             ind += "  "
@@ -1795,6 +1847,9 @@ class FuncTranslator:
     def ev(self, n, ctx):
         """-> (Lean text, CT) of a pure expression"""
         k = n.get("kind")
+        if k == "ConstantExpr" and "value" in n and node_type(n).kind == "int" and re.fullmatch(r"-?\d+", str(n["value"])):
+            v = int(n["value"])
+            return (str(v) if v >= 0 else f"({v})"), node_type(n)
         if k in ("ParenExpr", "ExprWithCleanups", "MaterializeTemporaryExpr", "ConstantExpr", "CXXBindTemporaryExpr",
                  "SubstNonTypeTemplateParmExpr"):
             return self.ev(n["inner"][0], ctx)
@@ -1815,6 +1870,8 @@ class FuncTranslator:
             if ck in ("IntegralCast", "IntegralToBoolean"):
                 v, vt = self.ev(n["inner"][0], ctx)
                 return self.convert(v, vt, t, n), t
+            if ck == "ConstructorConversion" and t.kind == "vec2":
+                return self.ev(n["inner"][0], ctx)
             self.fail(f"cast kind {ck}", n)
         if k == "UnaryOperator":
             op = n.get("opcode")
@@ -1892,6 +1949,9 @@ class FuncTranslator:
                     a, at = self.ev(args[0], ctx)
                     if at.kind == "vec2" and at.to.same(t.to):
                         return a, t
+                    if at.kind == "vec2":
+                        # draco::VectorD<T, N>(const VectorD<U, N> &): component-wise `T(src[i])` (core/vector_d.h)
+                        return f"({self.convert(a + '.1', at.to, t.to, n)}, {self.convert(a + '.2', at.to, t.to, n)})", t
             self.fail("constructor call", n)
         if k in ("CallExpr", "CXXMemberCallExpr", "CXXOperatorCallExpr"):
             return self.call(n, ctx)
